@@ -250,6 +250,10 @@ class LSMTree(Entity):
 
         # Immutable memtables awaiting flush (for reads during flush)
         self._immutable_memtables: list[Memtable] = []
+        # WAL sequence numbers whose entries are not yet in an installed
+        # SSTable, mapped to the memtable holding the entry (None while the
+        # write is between its WAL append and its memtable insert).
+        self._wal_pending: dict[int, Memtable | None] = {}
 
         # SSTable levels: levels[0] is L0 (most recent)
         self._levels: list[list[SSTable]] = [[] for _ in range(max_levels)]
@@ -344,8 +348,11 @@ class LSMTree(Entity):
 
         # WAL append
         if self._wal is not None:
+            seq = self._wal._next_sequence
+            self._wal_pending[seq] = None
             yield from self._wal.append(key, value)
             self._total_wal_writes += 1
+            self._wal_pending[seq] = self._memtable
 
         # Memtable put
         is_full = yield from self._memtable.put(key, value)
@@ -361,8 +368,9 @@ class LSMTree(Entity):
         self._logical_data[key] = value
 
         if self._wal is not None:
-            self._wal.append_sync(key, value)
+            seq = self._wal.append_sync(key, value)
             self._total_wal_writes += 1
+            self._wal_pending[seq] = self._memtable
 
         is_full = self._memtable.put_sync(key, value)
         if is_full:
@@ -456,8 +464,11 @@ class LSMTree(Entity):
         self._logical_data.pop(key, None)
 
         if self._wal is not None:
+            seq = self._wal._next_sequence
+            self._wal_pending[seq] = None
             yield from self._wal.append(key, _TOMBSTONE)
             self._total_wal_writes += 1
+            self._wal_pending[seq] = self._memtable
 
         is_full = yield from self._memtable.put(key, _TOMBSTONE)
         if is_full:
@@ -531,7 +542,7 @@ class LSMTree(Entity):
 
         # Truncate WAL
         if self._wal is not None:
-            self._wal.truncate(self._wal._next_sequence - 1)
+            self._truncate_wal_after_flush(old_memtable)
 
         logger.debug(
             "[%s] Flushed memtable to L0 SSTable(%d keys), L0 now has %d SSTables",
@@ -557,7 +568,7 @@ class LSMTree(Entity):
         # Reset memtable (flush() already clears it)
 
         if self._wal is not None:
-            self._wal.truncate(self._wal._next_sequence - 1)
+            self._truncate_wal_after_flush(self._memtable)
 
         if self._compaction_strategy.should_compact(self._levels):
             self._compact_sync()
@@ -670,6 +681,20 @@ class LSMTree(Entity):
 
         self._total_compactions += 1
 
+    def _truncate_wal_after_flush(self, flushed: Memtable) -> None:
+        """Drop the WAL prefix that is now covered by installed SSTables.
+
+        Entries of writes that sit in a newer memtable, or that have been
+        appended to the log but not yet inserted anywhere, must survive:
+        after a crash they can only be recovered from the log.
+        """
+        for seq in [s for s, m in self._wal_pending.items() if m is flushed]:
+            del self._wal_pending[seq]
+        if self._wal_pending:
+            self._wal.truncate(min(self._wal_pending) - 1)
+        else:
+            self._wal.truncate(self._wal._next_sequence - 1)
+
     def crash(self) -> dict:
         """Simulate power loss: lose memtable and unsynced WAL entries.
 
@@ -691,6 +716,7 @@ class LSMTree(Entity):
         if self._clock is not None:
             self._memtable.set_clock(self._clock)
         self._immutable_memtables.clear()
+        self._wal_pending.clear()
 
         # Crash WAL — discard unsynced entries
         wal_lost = 0
@@ -717,6 +743,7 @@ class LSMTree(Entity):
             entries = self._wal.recover()
             for entry in entries:
                 self._memtable.put_sync(entry.key, entry.value)
+                self._wal_pending[entry.sequence_number] = self._memtable
             wal_recovered = len(entries)
 
         sstable_keys = sum(s.key_count for level in self._levels for s in level)
